@@ -64,6 +64,11 @@ def benign_edits(repo):
     sub(j("src/awkward/_util.py"), r"^def completely_flatten", "# benign twin comment\n\n\ndef completely_flatten", flags=re.M)
     sub(j("src/awkward/partition.py"), r"    def rpad\(self, length, axis\):\n        if first\(self\)", "    def rpad(self, length, axis):\n        # benign comment\n        if first(self)")
     sub(j("src/awkward/operations/reducers.py"), r"layout\.sum\(axis=axis, mask=mask_identity, keepdims=keepdims\)", "layout.sum(keepdims=keepdims, axis=axis, mask=mask_identity)")
+    # 4b. edits aimed at the rules of the ninth to eleventh batches: a compared length held in a local; the collected piece named before it is appended
+    sub(j("src/libawkward/array/UnionArray.cpp"), r"    if \(index_\.length\(\) < lentags\) \{", "    int64_t lenindex = index_.length();\n    if (lenindex < lentags) {", count=1)
+    sub(j("src/awkward/partition.py"), r"( +)outparts\.append\(inparts\[i\]\[\(headparts\[i\],\) \+ tail\]\)\n +outoffsets\.append\(outoffsets\[-1\] \+ len\(outparts\[-1\]\)\)",
+        r"\1piece = inparts[i][(headparts[i],) + tail]\n\1outparts.append(piece)\n\1outoffsets.append(outoffsets[-1] + len(piece))")
+    sub(j("src/awkward/operations/describe.py"), r"        out = array\.validityerror\(\)\n        if out is not None and exception:", "        out = array.validityerror()\n        if exception and out is not None:")
     # 5. spec and kernel changed together (contract moves consistently): rename a local in both
     sub(j("kernel-specification.yml"), r"def awkward_ListArray_min_range\(tomin, fromstarts, fromstops, lenstarts\):\n          shorter", "def awkward_ListArray_min_range(tomin, fromstarts, fromstops, lenstarts):\n          smallest", count=1) if False else None
 
